@@ -1,11 +1,11 @@
 CONSTANTS
   MaxMoves = 1
-  F <- F_nostreamid
-  PreSet <- AllPre
+  F <- F_nocachedlevel
+  PreSet <- NoPre
   KindSet <- AllKinds
-  Deep = FALSE
+  Deep = TRUE
   RaceSet <- NoRace
 INIT Init
 NEXT Next
-INVARIANTS ReplyMatches
+INVARIANTS TypeOK Containment
 CHECK_DEADLOCK FALSE
